@@ -676,7 +676,195 @@ def inline_straight_line_helpers(tree: ast.Module, keep=frozenset()) -> int:
     return total
 
 
-def normalise(tree: ast.Module, keep=frozenset()) -> Dict[str, int]:
+# ---------------------------------------------------------------------------------------------- package facts for (8), (9)
+_COMMON_EXTERNAL = {"append", "index", "copy", "get", "pop", "add", "update", "find", "count", "strip", "split", "join", "choice", "sum", "items", "keys", "values", "format"}
+
+
+def package_facts(trees) -> dict:
+    """signatures: simple name -> parameter names (without self) when every definition of that name in the package (methods,
+    module-level functions, class constructors) has the same parameter list and no * / ** parameters;
+    stable_attrs: attribute names that some constructor establishes through `self.X = …` and that nothing in the package
+    stores, deletes or updates in place outside constructors (so `self.X` denotes the same object for the object's life)."""
+    sigs: Dict[str, list] = {}
+    established, stored_elsewhere, callables = set(), set(), set()
+    for tree in trees:
+        nested_names = set()
+        for node in ast.walk(tree):
+            if isinstance(node, FUNC):
+                for sub in ast.walk(node):
+                    if isinstance(sub, FUNC) and sub is not node:
+                        nested_names.add(sub.name)
+        for node in ast.walk(tree):
+            if isinstance(node, ast.ClassDef):
+                callables.add(node.name)
+                init = [x for x in node.body if isinstance(x, ast.FunctionDef) and x.name == "__init__"]
+                if init:
+                    a = init[0].args
+                    sigs.setdefault(node.name, []).append(None if (a.vararg or a.kwarg or a.posonlyargs or a.kwonlyargs) else tuple(x.arg for x in a.args[1:]))
+                else:
+                    sigs.setdefault(node.name, []).append(None)
+                for x in node.body:
+                    if isinstance(x, ast.FunctionDef):
+                        callables.add(x.name)
+                        if x.name.startswith("__"):
+                            continue
+                        a = x.args
+                        deco = {(d.id if isinstance(d, ast.Name) else getattr(d, "attr", None)) for d in x.decorator_list}
+                        if deco & {"property", "setter", "cached_property"} or a.vararg or a.kwarg or a.posonlyargs or a.kwonlyargs:
+                            sigs.setdefault(x.name, []).append(None)
+                        else:
+                            sigs.setdefault(x.name, []).append(tuple(y.arg for y in a.args[(0 if "staticmethod" in deco else 1):]))
+        for x in tree.body:
+            if isinstance(x, ast.FunctionDef):
+                a = x.args
+                callables.add(x.name)
+                sigs.setdefault(x.name, []).append(None if (a.vararg or a.kwarg or a.posonlyargs or a.kwonlyargs) else tuple(y.arg for y in a.args))
+        for nm in nested_names:
+            sigs.setdefault(nm, []).append(None)
+        for fn in [n for n in ast.walk(tree) if isinstance(n, FUNC)]:
+            ctor = fn.name == "__init__"
+            for n in ast.walk(fn):
+                tgt = None
+                if isinstance(n, ast.Attribute) and isinstance(n.ctx, (ast.Store, ast.Del)):
+                    tgt = n
+                if tgt is not None:
+                    if ctor and isinstance(tgt.value, ast.Name) and tgt.value.id == "self":
+                        established.add(tgt.attr)
+                    else:
+                        stored_elsewhere.add(tgt.attr)
+                if isinstance(n, ast.AugAssign) and isinstance(n.target, ast.Attribute) and not (ctor and isinstance(n.target.value, ast.Name) and n.target.value.id == "self"):
+                    stored_elsewhere.add(n.target.attr)
+                if isinstance(n, (ast.Assign, ast.AugAssign, ast.Delete)):
+                    for t in (n.targets if isinstance(n, (ast.Assign, ast.Delete)) else [n.target]):
+                        if isinstance(t, ast.Subscript) and isinstance(t.value, ast.Attribute) and not ctor:
+                            pass  # element stores do not re-bind the attribute itself
+        # class-level names are not per-object data
+    signatures = {}
+    for k, v in sigs.items():
+        if k in _COMMON_EXTERNAL or any(x is None for x in v):
+            continue
+        if len(set(v)) == 1:
+            signatures[k] = list(v[0])
+    return {"signatures": signatures, "stable_attrs": (established - stored_elsewhere) - callables}
+
+
+# ---------------------------------------------------------------------------------------------- (8) keyword arguments of package calls
+def positional_package_arguments(tree: ast.Module, facts) -> int:
+    """`f(a=x, b=y)` on a package function / method / constructor whose name has one signature in the whole package is
+    written with positional arguments as far as the leading parameters are supplied (the rules then find the n-th argument
+    where they expect it)."""
+    sig = (facts or {}).get("signatures", {})
+    total = 0
+    for c in ast.walk(tree):
+        if not isinstance(c, ast.Call) or not c.keywords:
+            continue
+        f = c.func
+        name = f.id if isinstance(f, ast.Name) else (f.attr if isinstance(f, ast.Attribute) else None)
+        if name not in sig:
+            continue
+        params = sig[name]
+        if any(isinstance(a, ast.Starred) for a in c.args) or any(k.arg is None for k in c.keywords):
+            continue
+        if any(k.arg not in params for k in c.keywords) or len(c.args) > len(params):
+            continue
+        kw = {k.arg: k.value for k in c.keywords}
+        if set(params[: len(c.args)]) & set(kw):
+            continue
+        args = list(c.args)
+        for p_ in params[len(c.args):]:
+            if p_ in kw:
+                args.append(kw.pop(p_))
+            else:
+                break
+        if len(args) != len(c.args):
+            c.args = args
+            c.keywords = [k for k in c.keywords if k.arg in kw]
+            total += 1
+    return total
+
+
+# ---------------------------------------------------------------------------------------------- (9) local aliases of stable attributes
+def propagate_stable_aliases(tree: ast.Module, facts) -> int:
+    """`x = self.a` (or `self.a.b`) where every attribute of the chain is established by a constructor and never stored
+    elsewhere in the package, `x` being assigned exactly once in its function and not shared with a `global` / `nonlocal`
+    declaration: every use of `x` (also inside nested functions) is written as the attribute chain and the assignment is
+    dropped — the "local alias for an attribute chain" tidy-up read backwards."""
+    stable = (facts or {}).get("stable_attrs", set())
+    total = 0
+
+    def chain_ok(e):
+        while isinstance(e, ast.Attribute):
+            if e.attr not in stable:
+                return False
+            e = e.value
+        return isinstance(e, ast.Name) and e.id == "self"
+
+    for fn in [n for n in ast.walk(tree) if isinstance(n, FUNC)]:
+        if not fn.args.args or fn.args.args[0].arg != "self":
+            continue
+        params = {a.arg for a in fn.args.posonlyargs + fn.args.args + fn.args.kwonlyargs}
+        cands = {}
+        for holder in ast.walk(fn):
+            for fld in ("body", "orelse", "finalbody"):
+                block = getattr(holder, fld, None)
+                if not (isinstance(block, list) and block and isinstance(block[0], ast.stmt)):
+                    continue
+                if holder is not fn:
+                    continue  # only assignments at the top level of the method (they run before everything after them)
+                for st in block:
+                    if isinstance(st, ast.Assign) and len(st.targets) == 1 and isinstance(st.targets[0], ast.Name) and isinstance(st.value, ast.Attribute) and chain_ok(st.value):
+                        cands.setdefault(st.targets[0].id, []).append((block, st))
+        for name, sites in cands.items():
+            if len(sites) != 1 or name in params or _stores(fn, name) != 1:
+                continue
+            block, st = sites[0]
+            # every use comes after the assignment: the assignment is a top-level statement and no use precedes it
+            idx = block.index(st)
+            if any(_loads(prev, name) for prev in block[:idx]):
+                continue
+            # `self` must still mean the same object where the alias is used: no nested function re-binds self
+            rebinding = any(isinstance(n, FUNC) and n is not fn and any(a.arg == "self" for a in n.args.args) for n in ast.walk(fn))
+            if rebinding:
+                continue
+            sub = _Subst({name: st.value})
+            for i, other in enumerate(block):
+                if other is st:
+                    continue
+                block[i] = sub.visit(other)
+            block.remove(st)
+            total += 1
+    if total:
+        ast.fix_missing_locations(tree)
+    return total
+
+
+# ---------------------------------------------------------------------------------------------- (10) X.sum() -> np.sum(X)
+def canonical_sum(tree: ast.Module) -> int:
+    total = 0
+    has_np = any(isinstance(n, ast.Import) and any(a.name == "numpy" and (a.asname or "numpy") == "np" for a in n.names) for n in ast.walk(tree))
+    if not has_np:
+        return 0
+
+    class T(ast.NodeTransformer):
+        def visit_Call(self, c):
+            nonlocal total
+            self.generic_visit(c)
+            f = c.func
+            if isinstance(f, ast.Attribute) and f.attr == "sum" and not c.args and not c.keywords and not (isinstance(f.value, ast.Name) and f.value.id in ("np", "numpy")):
+                total += 1
+                return ast.copy_location(ast.Call(func=ast.Attribute(value=ast.Name(id="np", ctx=ast.Load()), attr="sum", ctx=ast.Load()), args=[f.value], keywords=[]), c)
+            return c
+
+    T().visit(tree)
+    if total:
+        ast.fix_missing_locations(tree)
+    return total
+
+
+def normalise(tree: ast.Module, keep=frozenset(), facts=None) -> Dict[str, int]:
+    k8 = positional_package_arguments(tree, facts)
+    k9 = propagate_stable_aliases(tree, facts)
+    k10 = canonical_sum(tree)
     a = inline_trivial_helpers(tree)
     a2 = inline_straight_line_helpers(tree, keep)
     b = propagate_condition_temps(tree)
@@ -684,4 +872,4 @@ def normalise(tree: ast.Module, keep=frozenset()) -> Dict[str, int]:
     d = canonicalise_text_building(tree)
     q = expand_quantified_returns(tree)
     l = comprehend_append_loops(tree)
-    return {"append_loops": l, "helpers_inlined": a, "straight_line_helpers_inlined": a2, "condition_temporaries": b, "updates": c, "text_concatenations": d, "quantified_returns": q}
+    return {"append_loops": l, "helpers_inlined": a, "straight_line_helpers_inlined": a2, "keyword_arguments_positional": k8, "stable_aliases": k9, "sum_calls": k10, "condition_temporaries": b, "updates": c, "text_concatenations": d, "quantified_returns": q}
